@@ -55,6 +55,20 @@ def main():
                 finally:
                     cls_.acquire_write_lock = real_acq
                 rep = {"ok": True, "gated": not state["first"]}
+            elif op == "session_hold":
+                # enters a session (writing or reading), signals that it is inside, and stays there until the driver opens the gate
+                import time
+
+                c_ = handles[cmd["h"]]
+                cm = c_.writing(timeout=10) if cmd["mode"] == "w" else c_.reading(timeout=10)
+                with cm:
+                    if cmd["mode"] == "w":
+                        c_[cmd["key"]] = bytes.fromhex(cmd["val"])
+                    open(cmd["at_file"], "w").close()
+                    t0 = time.time()
+                    while not os.path.exists(cmd["gate_file"]) and time.time() - t0 < 60:
+                        time.sleep(0.01)
+                rep = {"ok": True}
             elif op == "session":
                 from vf.c04_common import run_session
 
